@@ -84,16 +84,19 @@ def draw_scenario(ch):
     return sc
 
 
-def make_dist(d):
+def make_dist(d, variant=0):
+    """variant > 0: a sibling distribution -- same length, and for 'values' / 'gauss' the same values with other weights"""
     import abtem.distributions as D
 
     lo = {"defocus": 0.0, "C30": -1e4, "C12": 5.0, "semiangle_cutoff": 12.0}[d["param"]]
     hi = {"defocus": 60.0, "C30": 2e4, "C12": 25.0, "semiangle_cutoff": 18.0}[d["param"]]
     if d["kind"] == "uniform":
-        return D.uniform(lo, hi, d["n"])
+        return D.uniform(lo, hi + 0.1 * variant * (hi - lo), d["n"])
     if d["kind"] == "values":
-        return D.from_values([lo + (hi - lo) * (i * 0.37 % 1.0) for i in range(d["n"])])
-    return D.gaussian(standard_deviation=(hi - lo) / 6, num_samples=d["n"], center=(hi + lo) / 2, sampling_limit=2.0)
+        vals = [lo + (hi - lo) * (i * 0.37 % 1.0) for i in range(d["n"])]
+        return D.from_values(vals) if variant == 0 else D.from_values(vals, weights=[1.0 + 0.5 * variant * (i + 1) for i in range(d["n"])])
+    return D.gaussian(standard_deviation=(hi - lo) / 6, num_samples=d["n"], center=(hi + lo) / 2, sampling_limit=2.0,
+                      normalize="intensity" if variant % 2 == 0 else "amplitude")
 
 
 def make_ensemble(sc):
@@ -102,20 +105,24 @@ def make_ensemble(sc):
     from abtem.core.axes import OrdinalAxis, ParameterAxis, ScanAxis, UnknownAxis
 
     k = sc["kind"]
-    rng = np.random.default_rng(sc["seed"])
+    var = sc.get("variant", 0)
+    rng = np.random.default_rng(sc["seed"] + var)
     if k == "GridScan":
-        return abtem.GridScan(start=tuple(sc["start"]), end=tuple(sc["end"]), gpts=tuple(sc["gpts"]), endpoint=sc["endpoint"])
+        return abtem.GridScan(start=tuple(sc["start"]), end=tuple(e * (1 + 0.1 * var) for e in sc["end"]), gpts=tuple(sc["gpts"]), endpoint=sc["endpoint"])
     if k == "LineScan":
-        return abtem.LineScan(start=tuple(sc["start"]), end=tuple(sc["end"]), gpts=sc["gpts"], endpoint=sc["endpoint"])
+        return abtem.LineScan(start=tuple(sc["start"]), end=tuple(e * (1 + 0.1 * var) for e in sc["end"]), gpts=sc["gpts"], endpoint=sc["endpoint"])
     if k == "CustomScan":
         return abtem.CustomScan(rng.random((sc["n"], 2)) * 5.0)
     if k in ("FrozenPhonons", "AtomsEnsemble"):
-        atoms = ase.Atoms(["Si", "C", "O"][: sc["natoms"]], positions=rng.random((sc["natoms"], 3)) * 4.0, cell=[4, 4, 4], pbc=True)
-        seed = tuple(sc["fp_seed"] + 7 * i for i in range(sc["n"])) if sc["explicit"] else sc["fp_seed"]
+        # a sibling ensemble (variant > 0) has the same structure, sigmas and size and other seeds
+        atoms = ase.Atoms(["Si", "C", "O"][: sc["natoms"]], positions=np.random.default_rng(sc["seed"]).random((sc["natoms"], 3)) * 4.0,
+                          cell=[4, 4, 4], pbc=True)
+        base = sc["fp_seed"] + 1013 * var
+        seed = tuple(base + 7 * i for i in range(sc["n"])) if sc["explicit"] else base
         fp = abtem.FrozenPhonons(atoms, sc["n"], 0.1, seed=seed)
         return fp if k == "FrozenPhonons" else fp.to_atoms_ensemble()
     if k in ("CTF", "Aberrations", "Aperture", "Probe"):
-        kw = {d["param"]: make_dist(d) for d in sc["dists"]}
+        kw = {d["param"]: make_dist(d, var) for d in sc["dists"]}
         if k == "CTF":
             return abtem.CTF(energy=100e3, **({"semiangle_cutoff": 20.0} | kw))
         if k == "Aberrations":
@@ -217,10 +224,52 @@ def sig(sc, aspect, mode):
 
 
 def run_one(run):
+    """a session of one or two related ensembles in one process: the drawn one, and -- half of the time -- a sibling of the same
+    kind, shape and chunking that differs in one respect (seeds, weights, values).  The sibling is partitioned first (state it
+    leaves behind must not reach the second ensemble), and / or its lazy blocks are computed in the same graph."""
     ch = run.ch
     sc = draw_scenario(ch)
     run.scenario = sc
     reset_process_state()
+    sc["sibling"] = ch.pick([None, "before", "joint", "after"], "sibling", weights=[4, 2, 2, 1])
+    chunks = None
+    lazies = []
+    order = [0]
+    if sc["sibling"] == "before":
+        order = [1, 0]
+    elif sc["sibling"] in ("joint", "after"):
+        order = [0, 1]
+    for var in order:
+        scv = dict(sc, variant=var)
+        res = check_scene(run, scv, chunks, defer_lazy=sc["sibling"] == "joint", label="" if var == 0 else "sibling ")
+        if res is None:
+            return
+        chunks, lz = res
+        sc["chunks"] = chunks
+        if lz is not None:
+            lazies.append(lz)
+    if sc["sibling"]:
+        run.note("reach_sibling_" + sc["sibling"])
+    if lazies:
+        # both ensembles' lazy blocks in ONE graph
+        import dask
+
+        sim = run.add_sim(Sim(ch, draw_sim_config(ch, light=True)))
+        try:
+            with sim:
+                arrs = dask.compute(*[lz[0] for lz in lazies], optimize_graph=sim.optimize_graph)
+        except (HarnessError, InjectedCrash):
+            raise
+        except Exception as e:  # noqa: BLE001
+            run.violate("partition-succeeds", sig(sc, "raise", "lazy-joint"), f"joint compute of two ensembles' blocks: {type(e).__name__}: {e} at {tb(e)}")
+            return
+        for (lz, finish), arr in zip(lazies, arrs):
+            finish(arr)
+
+
+def check_scene(run, sc, chunks, defer_lazy, label):
+    """partition one ensemble eagerly and lazily and verify the reassembly; returns (chunks, deferred lazy or None), None on abort"""
+    ch = run.ch
     try:
         ens = make_ensemble(sc)
         shape = tuple(ens.ensemble_shape)
@@ -231,11 +280,11 @@ def run_one(run):
     except Exception as e:  # noqa: BLE001
         run.invalid = True
         run.note("reference_raised")
-        sc["reference_error"] = f"{type(e).__name__}: {e} at {tb(e)}"[:300]
-        return
-    sc["ensemble_shape"] = list(shape)
-    chunks = [composition(ch, n) for n in shape]
-    sc["chunks"] = chunks
+        run.scenario["reference_error"] = f"{type(e).__name__}: {e} at {tb(e)}"[:300]
+        return None
+    run.scenario["ensemble_shape"] = list(shape)
+    if chunks is None:
+        chunks = [composition(ch, n) for n in shape]
     nblocks = int(np.prod([len(c) for c in chunks])) if chunks else 1
     vchunks = tuple(tuple(c) for c in chunks)
     starts = [np.concatenate([[0], np.cumsum(c)[:-1]]).astype(int) for c in chunks]
@@ -244,6 +293,7 @@ def run_one(run):
 
     def check_blocks(get_block, mode):
         """get_block(index tuple) -> sub-ensemble"""
+        mode = label + mode
         if not is_dist:
             out = np.full(full.shape, np.nan)
             count = np.zeros(shape, dtype=int)
@@ -314,35 +364,47 @@ def run_one(run):
     except (HarnessError, InjectedCrash):
         raise
     except Exception as e:  # noqa: BLE001
-        run.violate("partition-succeeds", sig(sc, "raise", "eager"), f"generate_blocks({vchunks}): {type(e).__name__}: {e} at {tb(e)}")
+        run.violate("partition-succeeds", sig(sc, "raise", label + "eager"), f"generate_blocks({vchunks}): {type(e).__name__}: {e} at {tb(e)}")
         eager_blocks = None
     if eager_blocks is not None:
         if len(eager_blocks) != nblocks:
-            run.violate("block-shape", sig(sc, "count", "eager"), f"generate_blocks yields {len(eager_blocks)} blocks, chunking has {nblocks}")
+            run.violate("block-shape", sig(sc, "count", label + "eager"), f"generate_blocks yields {len(eager_blocks)} blocks, chunking has {nblocks}")
         else:
             check_blocks(lambda idx: eager_blocks[idx], "eager")
     # ---- lazy partitioning under the simulator ------------------------------------------------------------------------
+    def finish(arr):
+        want = tuple(len(c) for c in chunks)
+        arr = np.asarray(arr, dtype=object)
+        if arr.shape != want:
+            run.violate("block-shape", sig(sc, "count", label + "lazy"), f"ensemble_blocks has block shape {arr.shape}, chunking has {want}")
+        else:
+            check_blocks(lambda idx: arr[idx] if len(idx) else arr.item(), "lazy-joint" if defer_lazy else "lazy")
+
+    if nblocks >= 2:
+        run.nontrivial = True
+        run.note("reach_multi_block")
+    if defer_lazy:
+        try:
+            return chunks, (make_ensemble(sc).ensemble_blocks(vchunks), finish)
+        except (HarnessError, InjectedCrash):
+            raise
+        except Exception as e:  # noqa: BLE001
+            run.violate("partition-succeeds", sig(sc, "raise", label + "lazy"), f"ensemble_blocks({vchunks}): {type(e).__name__}: {e} at {tb(e)}")
+            return chunks, None
     sim = run.add_sim(Sim(ch, draw_sim_config(ch, light=True)))
     try:
         with sim:
             lazy = make_ensemble(sc).ensemble_blocks(vchunks)
             arr = lazy.compute(optimize_graph=sim.optimize_graph)
-        sc["sim"] = sim.describe()
+        run.scenario["sim"] = sim.describe()
     except (HarnessError, InjectedCrash):
         raise
     except Exception as e:  # noqa: BLE001
-        run.violate("partition-succeeds", sig(sc, "raise", "lazy"), f"ensemble_blocks({vchunks}).compute(): {type(e).__name__}: {e} at {tb(e)}")
+        run.violate("partition-succeeds", sig(sc, "raise", label + "lazy"), f"ensemble_blocks({vchunks}).compute(): {type(e).__name__}: {e} at {tb(e)}")
         arr = None
     if arr is not None:
-        want = tuple(len(c) for c in chunks)
-        arr = np.asarray(arr, dtype=object)
-        if arr.shape != want:
-            run.violate("block-shape", sig(sc, "count", "lazy"), f"ensemble_blocks has block shape {arr.shape}, chunking has {want}")
-        else:
-            check_blocks(lambda idx: arr[idx] if len(idx) else arr.item(), "lazy")
-    run.nontrivial = nblocks >= 2
-    if nblocks >= 2:
-        run.note("reach_multi_block")
+        finish(arr)
+    return chunks, None
 
 
 def param_dim(ens, sc, name):
